@@ -48,6 +48,7 @@ var c15NamesFS = []string{
 }
 
 var c15Prefixes = []string{"", "heads/", "heads/ma", "heads/ma_", "heads/ma%", "heads/main", "heads/M", "remotes/a_b/", "remotes/a%b/", "remotes/a", "remotes/a/", "remotes/A", "tags/v", "tags/", "txs/", "refs_", "r", "x"}
+
 // remote names that are themselves substrings of "remotes/" or of one another are ordinary names
 var c15Remotes = []string{"a_b", "aXb", "A_B", "a%b", "a", "a_", "a/b", "a_bc", "remote", "s", "e", "remotes", "fresh"}
 
